@@ -27,5 +27,22 @@ CHECKS = {
           "reference predicate and lxml's XSD validator (listed findings in known_findings.json).",
   'technique': 'Coq proof over source-generated validation functions + differential correspondence + e2e oracle',
  },
+ 'C13': {
+  'text': "Theorems over a trace model of WsgiApplication (handle_rpc / handle_error / handle_wsdl_request / the bounded "
+          "body reader / _ResponseIterator), for every request, CONTENT_LENGTH text, configuration, input stream "
+          "(universally quantified list of read answers), outcome of each lower layer, and abort point: start_response "
+          "is called at most once and before any chunk, exactly once when the lower layers raise only Faults; a "
+          "Content-Length header equals the body size; never more than max_content_length bytes are read or asked for; "
+          "a body that does not fit ends in RequestTooLong without user code; the context is closed exactly once and "
+          "not before the body is handed over. The deciding expressions of the body reader are regenerated from "
+          "wsgi.py on every run and the whole trace model is tied to /repo by differential evaluation of ~1600 "
+          "instrumented WSGI calls per run.",
+  'design_ref': 'DESIGN.md section 6 (C13)',
+  'note': TB + "Lower layers (protocols, user code, serialisers) enter as universally quantified per-stage outcomes; "
+          "PEP 3333 typing rules (str headers, bytes chunks) are observed by the oracle and wsgiref.validate, not "
+          "proved; MTOM, auxiliary contexts, push interface and raising listeners are not modelled. One finding listed "
+          "(HttpRpc never reads an undeclared body).",
+  'technique': 'Coq proof over a trace model of the WSGI layer + source-generated reader expressions + differential correspondence',
+ },
 }
 NOT_APPLICABLE = {}
